@@ -448,7 +448,12 @@ func cellField(m *Model, c *absint.Cell, name string) string {
 	if !ok {
 		return "?"
 	}
-	i := fieldIx(m.CtxT, name)
+	i := -1
+	for k, r := range m.CtxRoles {
+		if r == name {
+			i = k
+		}
+	}
 	if i < 0 {
 		return "?"
 	}
